@@ -24,7 +24,7 @@
 (* statement fixes a reply it is a singleton; every deliberate latitude is   *)
 (* marked PERMISSIVE with the property it comes from.                        *)
 (***************************************************************************)
-EXTENDS CIPWire, Integers, TLC
+EXTENDS CIPWire, Integers, TLC, FloatTab
 
 E2105 == 8453      \* 0x2105  number of elements extends beyond the end of the tag
 E2107 == 8455      \* 0x2107  data type does not match the tag's
@@ -61,9 +61,11 @@ Conv(T, U, v) ==
   IF T = U THEN Canon(U, v)
   ELSE IF U \in StrTypes \/ T \in StrTypes THEN NoRep
   ELSE IF U \in FloatTypes THEN
-         (IF T = "REAL" /\ U = "LREAL" THEN F32to64(v)
+         (IF T = "REAL" /\ U = "LREAL" THEN F32Widen(v)
           ELSE IF T \in FloatTypes THEN NoRep
-          ELSE LET k == SmallInt(T, v) IN IF k = 99 THEN NoRep ELSE IF U = "REAL" THEN F32(k) ELSE F64(k))
+          ELSE IF T = "BOOL" THEN (IF U = "REAL" THEN F32(SmallInt(T, v)) ELSE F64(SmallInt(T, v)))
+          \* integers become the nearest floating point value (FloatTab: the images of the model's integer domain)
+          ELSE IF U = "REAL" THEN IntToF32(T, v) ELSE IntToF64(T, v))
   ELSE IF T \in FloatTypes THEN NoRep
   ELSE IF U = "BOOL" THEN NoRep
   ELSE IF T = "BOOL" THEN <<(IF v = <<0>> THEN 0 ELSE 1)>> \o Zeros(Size(U) - 1)
@@ -119,11 +121,14 @@ WriteOuts(C, mem, r) ==
       first == IF sz = 0 THEN i0 ELSE i0 + off \div sz
       rangeBad == \/ i0 + r.n > T.len
                   \/ first + Len(r.vals) > i0 + r.n
-      rangeOdd == r.n = 0 \/ Len(r.vals) = 0 \/ (sz = 0 /\ off # 0) \/ (sz # 0 /\ off % sz # 0)
+      rangeOdd == r.n = 0 \/ Len(r.vals) = 0 \/ (sz # 0 /\ off % sz # 0)
                   \/ (r.svc = "write" /\ Len(r.vals) # r.n)
+      \* PERMISSIVE(C04/C05): a byte offset into variable-length (string) elements has no defined meaning (the code documents
+      \* that it is unsupported): the request may fail, or be carried out as if the offset were 0
+      strOff == IF sz = 0 /\ off # 0 THEN { AnyFail(mem) } ELSE {}
       conv == [ i \in 1 .. Len(r.vals) |-> Conv(r.typ, U, r.vals[i]) ]
       written == [ mem EXCEPT ![r.tag] = Replace(mem[r.tag], first, conv) ]
-  IN
+  IN strOff \cup
   IF MustRefuse(r.typ, U) THEN
        (IF rangeBad \/ rangeOdd THEN { Err(255, <<E2107>>, mem), Err(255, <<E2105>>, mem), AnyFail(mem) }
         ELSE { Err(255, <<E2107>>, mem) })
